@@ -4,16 +4,21 @@ from engine.h4v import H, REPO, libhdf_units, libmfhdf_units
 TYPES = [("INT8", 20, 1), ("UINT8", 21, 1), ("CHAR8", 4, 1), ("INT16", 22, 2), ("UINT16", 23, 2), ("INT32", 24, 4), ("UINT32", 25, 4), ("FLOAT32", 5, 4), ("FLOAT64", 6, 8)]
 
 META = dict(
-    bounds=["K1: hdiff's array_diff on 2 elements per buffer, every number type hdiff handles, zero tolerances, all bit patterns symbolic (NaN/inf excluded for floats)"],
-    stubs=["printf = CBMC built-in (output not inspected)", "getenv returns NULL (DEBUG unset)"],
-    outside=["hdp dump formatting, hdfimport text/float parsing (fscanf/printf-driven: no bounded encoding within reach)", "hdiff object matching and SD/GR/Vdata traversal",
+    bounds=["K1: hdiff's array_diff on 2 elements per buffer, every number type hdiff handles, zero tolerances, all bit patterns symbolic (NaN/inf excluded for floats)",
+            "S2: hdiff's V-interface passes on two memio files of identical structure (top-level vgroup with 1 (quick) or 1-2 (thorough) Vdata members + one lone Vdata, 2 records each), "
+            "all record bytes of both files symbolic"],
+    stubs=["printf = CBMC built-in (output not inspected)", "getenv returns NULL (DEBUG unset)",
+           "S2: Vlone/VSlone replaced for hdiff_list.c by a structural model (their two passes over a 65536-entry table do not finish under symbolic execution)", "S2: memio, codes-only error stack"],
+    outside=["hdp dump formatting, hdfimport text/float parsing (fscanf/printf-driven: no bounded encoding within reach)", "hdiff SD/GR traversal and the match() step between the two object tables (hdiff_list opens the SD interface on every file)",
              "buffers longer than 2 elements (loop body is uniform)"],
     manifest=dict(
         level="Bounded model checking (CBMC/SAT) of the real hdiff comparison kernel (mfhdf/hdiff/hdiff_array.c): for every number type and ALL pairs of element values the solver "
               "decides that array_diff with zero tolerances returns 0 exactly when the buffers are equal, counts each differing element once, and is symmetric in whether "
-              "differences are found.",
-        note="Trusted: CBMC 6.11 floating-point encoding, printf ignored. Only the element-comparison clause of C19 is decided; hdp and hdfimport clauses are not.",
-        technique="CBMC bounded model checking of real hdiff_array.c with fully symbolic element values"),
+              "differences are found; (S2) real hdiff_list.c / hdiff_vs.c / hdiff_table.c over the whole libhdf on memio: every Vdata (inside a top-level vgroup or lone) and the "
+              "vgroup are in hdiff's object table exactly once, diff_vs reports a difference exactly when a record byte differs between the two files, and a file compared with "
+              "itself (second open of the same path) shows none.",
+        note="Trusted: CBMC 6.11 floating-point encoding, printf ignored. Decided: element comparison, and listing + record comparison for Vdatas; hdp and hdfimport clauses, SDS/GR traversal and attribute comparison are not.",
+        technique="CBMC bounded model checking of real hdiff_array.c (symbolic elements) and of hdiff_list.c/hdiff_vs.c over whole libhdf on an in-memory stdio model (symbolic record bytes)"),
 )
 
 def plan(ctx, tier, seed):
@@ -24,7 +29,7 @@ def plan(ctx, tier, seed):
                     extra_cc=["-I" + REPO + "/mfhdf/hdiff"], symbolic="2x2 elements, all bit patterns", bound="2 elements per buffer", group="C19.K1"))
     hd = ["mfhdf/hdiff/hdiff_vs.c", "mfhdf/hdiff/hdiff_table.c", "mfhdf/hdiff/hdiff_misc.c", "mfhdf/hdiff/hdiff_array.c", "mfhdf/hdiff/hdiff_dim.c",
           "mfhdf/hdiff/hdiff_mattbl.c", "mfhdf/hdiff/hdiff_sds.c", "mfhdf/hdiff/hdiff_gr.c", "mfhdf/hdiff/hdiff_gattr.c"]
-    for nmem in (1, 2):
+    for nmem in ((1,) if tier == "quick" else (1, 2)):
         hs.append(H("C19.S2.hdiffvs.n%d" % nmem, "C19", src="harness/C19/s2_hdiff_vs.c", units=libhdf_units() + libmfhdf_units() + hd, models=["memio", "herr", "memloops", "printf"],
                     defs={"NMEM": nmem, "MEMIO_DISK_SZ": 4096}, unwind=5000, kind="S", timeout=1500, mf=True, extra_cc=["-I" + REPO + "/mfhdf/hdiff"],
                     symbolic="record bytes of both files", bound="top-level vgroup with %d Vdata member(s) + one lone Vdata, 2 records each" % nmem, group="C19.S2", hang_is_violation=True))
